@@ -25,6 +25,8 @@ pub struct Sink<'a> {
     /// after an injected fault only the hook-based snapshot is taken (the public peeks may themselves be unsafe)
     pub core_only: bool,
     pub stream: String,
+    /// the last step ended in an injected (`user`) fault of a comparison fuse: the queue survives and the case may go on
+    pub survivable: bool,
 }
 
 fn fnv(s: &str) -> u64 {
@@ -95,6 +97,7 @@ impl<'a> Sink<'a> {
         let core_only = self.core_only;
         let before = if self.ops % 7 == 0 && !core_only { Some(q.snapshot()) } else { None };
         let c0 = cmp_count();
+        self.survivable = false;
         let r = catch_unwind(AssertUnwindSafe(|| apply(q, op, lk)));
         self.ops += 1;
         *self.op_hist.entry(op.name()).or_insert(0) += 1;
@@ -121,6 +124,7 @@ impl<'a> Sink<'a> {
             Err(p) => {
                 self.faults += 1;
                 let c = classify(p);
+                self.survivable = c == "user" && matches!(op, Op::Crash { cmp: 1, .. });
                 // after an injected fault the white-box state is part of the observation (C10): read it through the hook
                 let st = if matches!(op, Op::Crash { .. }) {
                     catch_unwind(AssertUnwindSafe(|| format!("{} {}", q.kind().name(), q.snapshot_core()))).unwrap_or_else(|_| "-".into())
@@ -872,7 +876,7 @@ pub fn crash_stream<H: BuildHasher + Default + Clone>(sink: &mut Sink, rng: &mut
 
 /// C10 mirror stream: a generated history followed by ONE operation with the k-th comparison (or callback) panicking;
 /// the post-fault white-box state is compared with the Lean crash model (`PQ/Model/Crash.lean`) by the driver.
-pub fn crash_mirror_stream<H: BuildHasher + Default + Clone>(sink: &mut Sink, rng: &mut Rng, kinds: &[Kind], ncases: u64, max_k: u64) {
+pub fn crash_mirror_stream<H: BuildHasher + Default + Clone>(sink: &mut Sink, rng: &mut Rng, kinds: &[Kind], ncases: u64, max_k: u64, cont: u64) {
     for c in 0..ncases {
         if sink.full() { break; }
         let mut r = rng.fork(c);
@@ -927,6 +931,15 @@ pub fn crash_mirror_stream<H: BuildHasher + Default + Clone>(sink: &mut Sink, rn
         drop(q0);
         let mut ks: Vec<u64> = (1..=kc.min(max_k)).collect();
         if kc > max_k { ks.push(kc); ks.push(r.range(max_k, kc)); }
+        if cont > 0 && !ks.is_empty() {
+            // post-crash histories: one or two fault points per case, then the surviving queue goes on being used
+            let a = *r.pick(&ks);
+            let b = *r.pick(&ks);
+            ks = if a == b { vec![a] } else { vec![a, b] };
+        }
+        // what the surviving queue is used for: every class of operation, iterators (C13) and further faults more often
+        let pf_cont = Profile { weights: weights_with(&[("serde_rt", 0), ("deser", 0), ("capacity", 0), ("clone", 0), ("eq", 0), ("convert", 0),
+            ("sorted_iter", 60), ("sorted_vec", 30), ("iter", 40), ("into_iter", 30), ("drain", 20), ("len", 30), ("into_vec", 15)]), ..pf.clone() };
         for k in ks {
             if sink.full() { break; }
             if !sink.case(kind) { continue; }
@@ -936,7 +949,19 @@ pub fn crash_mirror_stream<H: BuildHasher + Default + Clone>(sink: &mut Sink, rn
                 if !sink.step(&mut q, p, Lookup::Owned) { ok = false; break; }
             }
             if !ok { continue; }
-            sink.step(&mut q, &Op::Crash { cmp: 1, k, op: Box::new(op.clone()) }, Lookup::Owned);
+            let mut alive = sink.step(&mut q, &Op::Crash { cmp: 1, k, op: Box::new(op.clone()) }, Lookup::Owned) || sink.survivable;
+            let mut rc = r.fork(1000 + k);
+            for _ in 0..cont {
+                if !alive { break; }
+                let mut o = gen_op(&mut rc, &q, &pf_cont);
+                if matches!(o, Op::IterMut { forget: true, .. } | Op::Drain { forget: true, .. }) { continue; }
+                // (the operations the crash model mirrors; `iter_mut` only with primitive calls, so not here)
+                if rc.chance(1, 6) && matches!(o, Op::Push(_) | Op::PushIncrease(_) | Op::PushDecrease(_) | Op::ChangePriority(..) | Op::ChangePriorityBy(..) | Op::Remove(_)
+                    | Op::Pop | Op::PopMin | Op::PopMax | Op::PeekMax | Op::PopIf(..) | Op::RetainMut(_) | Op::Extend { .. } | Op::FromVec(_) | Op::FromIter { .. }) {
+                    o = Op::Crash { cmp: 1, k: rc.range(1, 6), op: Box::new(o) };
+                }
+                alive = sink.step(&mut q, &o, Lookup::Owned) || sink.survivable;
+            }
             let _ = catch_unwind(AssertUnwindSafe(move || drop(q)));
         }
     }
